@@ -18,7 +18,7 @@ pub fn def() -> PropDef {
         streams,
         run,
         floors,
-        rule: "each value (message or AVP) is encoded into an empty writer and into writers pre-filled with 1..300 random octets (VecWriter and a recording writer); result must be prefix ++ encode(v); sequences of 2..8 mixed items into one writer must equal the concatenation; every positional overwrite logged by the recording writer must start at or after the start of the value being encoded, end inside the written data, and coincide with a length field found by the independent walker on the final output. Distinct = distinct (prefix length, value); non-trivial = non-empty prefix or sequence.",
+        rule: "each value (message or AVP) is encoded into an empty writer and into writers pre-filled with 1..300 random octets (VecWriter and a recording writer); result must be prefix ++ encode(v); sequences of 2..8 mixed items into one writer must equal the concatenation; every positional overwrite logged by the recording writer must start at or after the start of the value being encoded, end inside the written data, and coincide with a length field found by the independent walker on the final output. Distinct = distinct (prefix length, value); non-trivial = non-empty prefix or sequence. Also: prefixes of 64 KiB..200 KB, sequences crossing 64 KiB, a window writer whose positions start at 2^16..2^48, pre-sized and recycled VecWriters.",
     }
 }
 
